@@ -15,5 +15,6 @@ def main (args : List String) : IO UInt32 := do
   | ["api"] => CfbVerif.Drv.Api.main; return 0
   | ["raw"] => CfbVerif.Drv.Raw.main; return 0
   | ["locks"] => CfbVerif.Drv.Lock.main; return 0
-  | ["phys"] => CfbVerif.Drv.Phys.main; return 0
+  | "phys" :: rest => CfbVerif.Drv.Phys.main rest; return 0
+  | ["speccheck"] => CfbVerif.Drv.Phys.specFiles; return 0
   | _ => IO.eprintln "usage: driver <handle|...>"; return 2
